@@ -5,7 +5,7 @@
                 (Proofs/FmtPython.v: val_ok, star_ok)
    The domain of the property ("no % conversion carries a key, flag, width, precision or length") is plain_percents. *)
 From Coq Require Import List NArith ZArith Bool.
-From I18n Require Import Lib.Outcome Model.FmtPython Model.FmtInstances Spec.CPyPercent Proofs.FmtPythonDir Proofs.FmtPython Proofs.FmtPythonGen.
+From I18n Require Import Lib.Outcome Model.FmtPython Model.FmtInstances Spec.CPyPercent Proofs.FmtPythonDir Proofs.FmtPython Proofs.FmtPythonArgs Proofs.FmtPythonGen.
 Import ListNotations.
 Local Open Scope N_scope.
 
@@ -24,6 +24,18 @@ Theorem C12_accept_formats : forall s sg a,
   args_match (seq_arguments sg) (map_arguments sg) a -> formats_ok s a.
 Proof. exact accept_formats. Qed.
 Print Assumptions C12_accept_formats.
+
+(* non-vacuity of the hypothesis: the canonical arguments built from the signature (a tuple / a dict of sample
+   values: 7, a float, "c", "", None; 3 for a star) match it; so  s % args_from(signature(s))  succeeds *)
+Theorem C12_args_from_match : forall s sg,
+  fmtpy_parse std_info s = Ok sg -> args_match (seq_arguments sg) (map_arguments sg) (args_from sg).
+Proof. exact args_from_match. Qed.
+Print Assumptions C12_args_from_match.
+
+Theorem C12_accept_formats_args_from : forall s sg,
+  fmtpy_parse std_info s = Ok sg -> plain_percents s = true -> formats_ok s (args_from sg).
+Proof. exact accept_formats_args_from. Qed.
+Print Assumptions C12_accept_formats_args_from.
 
 (* CPython rejects the string as malformed whatever the arguments => the parser rejects it *)
 Theorem C12_reject_if_cpython_rejects : forall s,
